@@ -24,8 +24,28 @@ import (
 
 func fz(f float64) string { return strconv.FormatFloat(f, 'f', -1, 64) }
 
+// unscale: class "scaled" runs the implementation on the lattice case multiplied by 2^unscale
+// (exact in binary floating point, and commuting exactly with every operation of the hull and
+// orientation code); X/Y of every OUTPUT are divided by 2^unscale again (exact) before they are
+// printed, so the observations must equal those of the lattice case itself.
+var unscale int
+
+func fzxy(f float64) string { return fz(math.Ldexp(f, -unscale)) }
+
+// scaleNode is a deep copy with X and Y multiplied by 2^e.
+func scaleNode(n *lib.Node, e int) *lib.Node {
+	m := &lib.Node{Kind: n.Kind, CT: n.CT, Full: n.Full}
+	for _, c := range n.C {
+		m.C = append(m.C, [4]float64{math.Ldexp(c[0], e), math.Ldexp(c[1], e), c[2], c[3]})
+	}
+	for _, k := range n.Kids {
+		m.Kids = append(m.Kids, scaleNode(k, e))
+	}
+	return m
+}
+
 func zCoords(sb *strings.Builder, c geom.Coordinates, ct geom.CoordinatesType) {
-	sb.WriteString(fz(c.X) + " " + fz(c.Y) + " ")
+	sb.WriteString(fzxy(c.X) + " " + fzxy(c.Y) + " ")
 	if ct.Is3D() {
 		sb.WriteString(fz(c.Z) + " ")
 	}
@@ -162,7 +182,7 @@ func rectDump(out geom.Geometry) string {
 			sb.WriteString("R")
 			for i := 0; i < 5; i++ {
 				xy := seq.GetXY(i)
-				fmt.Fprintf(&sb, " %016x %016x", math.Float64bits(xy.X), math.Float64bits(xy.Y))
+				fmt.Fprintf(&sb, " %016x %016x", math.Float64bits(math.Ldexp(xy.X, -unscale)), math.Float64bits(math.Ldexp(xy.Y, -unscale)))
 			}
 			return sb.String()
 		}
@@ -600,6 +620,7 @@ func main() {
 	shapesHist := map[string]int{}
 	sizes := map[string]int{}
 	hullKinds := map[string]int{}
+	scaleHist := map[string]int{}
 	for i := 0; i < a.N; i++ {
 		r := root.Fork()
 		g := &gen{r: r, ct: geom.CoordinatesType(0)}
@@ -608,6 +629,7 @@ func main() {
 		}
 		var n *lib.Node
 		class := ""
+		scaleExp := 0
 		switch {
 		case i%16 == 7:
 			// general-position doubles: covering claims within tolerance (exact Q evaluation in the driver)
@@ -644,6 +666,23 @@ func main() {
 				kind = lib.Kind(r.Intn(7))
 			}
 			class = shape
+			if i%6 == 4 {
+				// the same kind of lattice case, run at another scale: 2^-60..2^-10 or 2^1..2^40,
+				// half of them first translated by a multiple of 2^10 (up to 2^20)
+				class = "scaled"
+				if r.Bool() {
+					scaleExp = -r.Range(10, 60)
+				} else {
+					scaleExp = r.Range(1, 40)
+				}
+				if r.Bool() {
+					ox, oy := r.Range(-1024, 1024)*1024, r.Range(-1024, 1024)*1024
+					for j := range pts {
+						pts[j] = [2]int{pts[j][0] + ox, pts[j][1] + oy}
+					}
+				}
+				scaleHist[fmt.Sprintf("2^%d..", scaleExp/10*10)]++
+			}
 			shapesHist[shape]++
 			n = g.typed(kind, pts, 0)
 			switch {
@@ -662,6 +701,11 @@ func main() {
 		in := n.Build()
 		vn := g.variant(n, false)
 		vin := vn.Build()
+		inDump, vinDump := zDump(in), zDump(vin) // the lattice case
+		if scaleExp != 0 {
+			in, vin = scaleNode(n, scaleExp).Build(), scaleNode(vn, scaleExp).Build()
+		}
+		unscale = scaleExp
 		hg, hs, ok := hullOf(in)
 		_, vhs, _ := hullOf(vin)
 		hhs := "PANIC"
@@ -676,14 +720,15 @@ func main() {
 			hullKinds[hg.Type().String()]++
 		}
 		fields := []string{
-			strconv.Itoa(i), class, zDump(in), hs, zDump(vin), vhs, hhs,
+			strconv.Itoa(i), class, inDump, hs, vinDump, vhs, hhs,
 			rectOf(geom.RotatedMinimumAreaBoundingRectangle, in),
 			rectOf(geom.RotatedMinimumWidthBoundingRectangle, in),
 			valid,
 		}
+		unscale = 0
 		fmt.Fprintln(w, strings.Join(fields, "\t"))
 	}
 	js, _ := json.Marshal(map[string]interface{}{"classes": classes, "kinds": kinds, "shapes": shapesHist,
-		"cloud_sizes": sizes, "hull_types": hullKinds})
+		"cloud_sizes": sizes, "hull_types": hullKinds, "scaled_by": scaleHist})
 	fmt.Fprintf(w, "#GEN\t%s\n", js)
 }
